@@ -79,6 +79,7 @@ func (ex *Exec) evalN(p *Path, e ast.Expr, multi bool) []Value {
 	case *ast.TypeAssertExpr:
 		return ex.evalTypeAssert(p, x, multi)
 	case *ast.FuncLit:
+		p.noPrivate, p.private = true, nil
 		r := ex.c.Fresh("closure", "Ref")
 		ex.closures[r] = &closure{lit: x, info: ex.info, pkg: ex.pkg}
 		var t types.Type
